@@ -375,6 +375,17 @@ class RedirectStream(Stream):
                 r = reference_check(cfg, case["rules"], a, probe[0], probe[1], steps[0])
                 if r is not None and r[1] == "redirect-before-conversion":
                     fam = "F03c"
+                else:
+                    # ... or the target itself is answered by a rule whose to_python rejects the value
+                    # while a lower-priority rule admits it (F03 at the redirect target)
+                    last = probe[0]
+                    for st in steps[:-1]:
+                        nxt = hop_target(cfg, a, bytes.fromhex(st[2:]).decode())
+                        if nxt is not None:
+                            last = nxt[0]
+                    r2 = reference_check(cfg, case["rules"], a, last, probe[1], final)
+                    if r2 is not None and r2[1] is True:
+                        fam = "F03c"
                 res.append((f"redirect target is answered with {final.split(' ')[0]} instead of a match", fam))
             elif orig is not None and not self.ambiguous(case, probe, steps):
                 _, _, ep, vals = final.split(" ")
